@@ -136,3 +136,58 @@ def slice_bounds(sub: ast.Subscript, env, n):
         lo2 = min(lo2, n)
         return (lo2, lo2)
     return (part[0], part[-1] + 1)
+
+
+UNKNOWN = ('<unknown>',)
+
+
+def run_block(stmts, env, fixed=()):
+    """abstract execution of straight-line code with if/else over the evaluator above: assignments whose value is outside
+    the fragment bind UNKNOWN, names in `fixed` keep their preset value, an if with an undecidable test executes both
+    branches and keeps only the bindings on which they agree.  Loops, returns and raises end the block.  Returns env."""
+    env = dict(env)
+    for st in stmts:
+        if isinstance(st, (ast.Assign, ast.AnnAssign)):
+            targets = st.targets if isinstance(st, ast.Assign) else [st.target]
+            if st.value is None:
+                continue
+            try:
+                v = ev(st.value, env)
+                if any(x is UNKNOWN for x in (v if isinstance(v, tuple) else (v,))):
+                    v = UNKNOWN
+            except (Unsupported, TypeError, KeyError, IndexError, AttributeError):
+                v = UNKNOWN
+            for t in targets:
+                if isinstance(t, ast.Name):
+                    if t.id not in fixed:
+                        env[t.id] = v
+                elif isinstance(t, (ast.Tuple, ast.List)):
+                    for i, el in enumerate(t.elts):
+                        if isinstance(el, ast.Name) and el.id not in fixed:
+                            env[el.id] = v[i] if isinstance(v, tuple) and v is not UNKNOWN and i < len(v) else UNKNOWN
+            continue
+        if isinstance(st, ast.AugAssign):
+            if isinstance(st.target, ast.Name) and st.target.id not in fixed:
+                try:
+                    cur = env[st.target.id]
+                    inc = ev(st.value, env)
+                    env[st.target.id] = cur + inc if isinstance(st.op, ast.Add) else (cur - inc if isinstance(st.op, ast.Sub) else UNKNOWN)
+                except (Unsupported, TypeError, KeyError):
+                    env[st.target.id] = UNKNOWN
+            continue
+        if isinstance(st, ast.If):
+            try:
+                t = ev(st.test, env)
+                if t is UNKNOWN or any(x is UNKNOWN for x in (t if isinstance(t, tuple) else ())):
+                    raise Unsupported('unknown test')
+                env = run_block(st.body if t else st.orelse, env, fixed)
+            except (Unsupported, TypeError, KeyError):
+                e1 = run_block(st.body, env, fixed)
+                e2 = run_block(st.orelse, env, fixed)
+                env = {k: (e1[k] if k in e1 and k in e2 and e1[k] == e2[k] else UNKNOWN) for k in set(e1) | set(e2)}
+            continue
+        if isinstance(st, (ast.Expr, ast.Pass, ast.Assert)):
+            continue
+        if isinstance(st, (ast.Return, ast.Raise, ast.For, ast.While, ast.Break, ast.Continue)):
+            break
+    return env
